@@ -33,7 +33,7 @@ FUZZ = {'runs': 30000}   # thorough tier: 16 atheris campaigns of this many exec
 
 TEXTS = ['first line\rsecond line', 'one\r\ntwo\x0cthree\u2028four', 'x', 'a\n\nb', "it's # (k: v, [", 'w1 w2 w3 w4 w5 w6 w7', '  lead\n  \ntrail  ', '"\\']
 LEAVES = [['int', 1], ['str', 'a b'], ['tuple', []]]
-SUPPORTS_TRAILING = ('list', 'tuple', 'set', 'dict', 'call:nt', 'call:ns')
+SUPPORTS_TRAILING = ('list', 'tuple', 'set', 'dict', 'call:nt', 'call:ns', 'call:tsize')
 
 
 def _paths(r, prefix=()):
@@ -135,6 +135,10 @@ def fixed_cases():
             yield {'v': node, 'width': w, 'ribbon': w, 'indent': 4}
             yield {'v': ['list', [['cmt', 'on the container', node], ['int', 0]]], 'width': w, 'ribbon': w, 'indent': 4}
             yield {'v': ['dict', [[['str', 'k'], ['cmt', 'as a dict value', node]]]], 'width': w, 'ribbon': w, 'indent': 2, 'sort': True}
+    # a struct sequence (sole tuple argument, hugged) carrying a trailing comment
+    for w in (79, 15):
+        yield {'v': ['tcmt', 'checked by hand', ['call', 'tsize', [['int', 80], ['int', 24]], []]], 'width': w, 'ribbon': w, 'indent': 4}
+        yield {'v': ['list', [['tcmt', 'checked by hand', ['call', 'tsize', [['int', 80], ['int', 24]], []]], ['cmt', 'above', ['call', 'tsize', [['int', 1], ['int', 2]], []]]]], 'width': w, 'ribbon': w, 'indent': 4}
     # namedtuples / SimpleNamespaces carrying a trailing comment themselves (and commented fields)
     for w in (79, 15):
         for kind in ('nt', 'ns'):
@@ -211,6 +215,7 @@ def strategy(tier):
             # standard-library containers and call-like values holding (possibly commented) values
             st.lists(ch, max_size=3).map(lambda xs: ['call', 'deque', xs, []]),
             st.lists(ch, max_size=2).map(lambda xs: ['call', 'exc', xs, []]),
+            st.tuples(S['leaf'], S['leaf']).map(lambda p: ['call', 'tsize', list(p), []]),
             st.tuples(st.sampled_from(['odict', 'ddict', 'mproxy', 'chainmap']), st.lists(ch, max_size=3)).map(
                 lambda p: ['call', p[0], [], [[n, x] for n, x in zip(['a', 'b', 'kw'], p[1])]]),
             # namedtuples and SimpleNamespaces (printed as calls with keyword arguments; their printers take a trailing comment)
@@ -262,8 +267,19 @@ def reference_words(r, out, dropped):
             reference_words(k, out, dropped)
             reference_words(v, out, dropped)
     elif t == 'call':
-        if r[1] in ('nt', 'ns'):
-            base = 'call:' + r[1]       # namedtuple / SimpleNamespace: printers that take a trailing comment
+        if r[1] in ('nt', 'ns', 'tsize'):
+            base = 'call:' + r[1]       # namedtuple / SimpleNamespace / struct sequence: printers that take a trailing comment
+        if r[1] == 'tsize':
+            # the struct-sequence printer names every field in a comment of its own; a field that carries a comment()
+            # already keeps its own (of two stacked comments the inner one is shown)
+            for name, a in zip(('columns', 'lines'), list(r[2]) + [['none'], ['none']]):
+                x = a
+                has_cmt = False
+                while x[0] in ('cmt', 'tcmt'):
+                    has_cmt = has_cmt or x[0] == 'cmt'
+                    x = x[2]
+                if not has_cmt:
+                    out.append([name])
         for a in r[2]:
             reference_words(a, out, dropped)
         for _, a in r[3]:
